@@ -219,6 +219,27 @@ def _fit(case):
             t3 = np.asarray(clf.transform(da.from_array((stack * m).astype(np.float32), chunks=dstack.chunks), mask=False), dtype=np.float64)
             if t3.shape != tr.shape or np.abs(t3 - tr).max() > tol:
                 viol.append((sig("transform(masked,mask=False)"), f"transform(images*mask, mask=False) differs from get_transform() by {np.abs(t3 - tr).max():.3g}"))
+        # unseen images given as a plain numpy array (what the repository's own test passes), used more than once: the answers
+        # repeat and the caller's array is left alone
+        if stack.dtype.kind == "f":
+            nin = np.array(stack, copy=True)
+            keep = nin.copy()
+            for call in (1, 2, 3):
+                try:
+                    tn = np.asarray(clf.transform(nin) if call != 2 else clf.transform(nin, mask=True), dtype=np.float64)
+                    pn = np.asarray(clf.predict(nin))
+                except Exception as e:  # noqa
+                    viol.append((sig("transform(numpy)"), f"call {call}: {type(e).__name__}: {e}"))
+                    break
+                if tn.shape != tr.shape or np.abs(tn - tr).max() > tol:
+                    viol.append((sig("transform(numpy)"), f"call #{call} of transform(numpy images) differs from get_transform() by {np.abs(tn - tr).max() if tn.shape == tr.shape else tn.shape:.3g} (mask {case['mask']})"))
+                    break
+                if lab.shape == (N,) and not np.array_equal(pn, lab):
+                    viol.append((sig("predict(numpy)"), f"call #{call} of predict(numpy images) = {pn.tolist()} but labels = {lab.tolist()}"))
+                    break
+                if not np.array_equal(nin, keep):
+                    viol.append((sig("input-modified"), f"transform / predict changed the numpy array it was given (by up to {np.abs(nin - keep).max():.3g}, mask {case['mask']})"))
+                    break
         pr = np.asarray(clf.predict(dstack))
         if lab.shape == (N,) and (pr.shape != (N,) or not np.array_equal(pr, lab)):
             viol.append((sig("predict"), f"predict(images) = {pr.tolist()} but labels = {lab.tolist()}"))
